@@ -218,6 +218,9 @@ TEMPLATES = {
     "qualified_join": (["INSERT INTO zqt3 SELECT a.ca, b.cb FROM zqt1 AS a JOIN zqt2 AS b ON a.id = b.id"], "ansi", None, None),
     "unqualified_join": (["INSERT INTO zqt3 SELECT zqk1, b.cb FROM zqt1 AS a JOIN zqt2 AS b ON a.id = b.id"], "ansi", None, None),
     "same_bare_two_schemas": (["INSERT INTO tw SELECT zqt1.ca, a.cb FROM zqs1.zqt1 JOIN zqs2.zqt2 AS a ON zqt1.id = a.id"], "ansi", None, None),
+    # two relations of one FROM clause that may share their bare name (both un-aliased; a CTE and a schema-qualified table)
+    "same_bare_two_schemas_noalias": (["INSERT INTO tw SELECT zqt1.ca FROM zqs1.zqt1 JOIN zqs2.zqt2 ON zqs1.zqt1.id = zqs2.zqt2.id"], "ansi", None, None),
+    "cte_and_qualified_table": (["INSERT INTO tw WITH zqc1 AS (SELECT ca FROM ta) SELECT zqc1.ca FROM zqc1 CROSS JOIN zqs1.zqt1"], "ansi", None, None),
     "self_join": (["INSERT INTO zqt2 SELECT a.ca, b.cb FROM zqt1 AS a JOIN zqt1 AS b ON a.id = b.id"], "ansi", None, None),
     "union": (["INSERT INTO zqt3 SELECT ca FROM zqt1 UNION ALL SELECT cb FROM zqt2"], "ansi", None, None),
     "cte": (["INSERT INTO zqt2 WITH zqc1 AS (SELECT ca, cb FROM zqt1) SELECT ca, zqc1.cb FROM zqc1"], "ansi", None, None),
